@@ -14,12 +14,17 @@ use std::panic::{catch_unwind, AssertUnwindSafe};
 use std::rc::Rc;
 
 pub const POOL_LEN: usize = 8192;
-static POOL: [u8; POOL_LEN] = { let mut p = [0u8; POOL_LEN]; let mut i = 0; while i < POOL_LEN { p[i] = ((i * 31 + 7) & 0xff) as u8; i += 1; } p };
+// no pool byte is 0xEE: the memory around every slice the liar hands out is filled with 0xEE, so an 0xEE in a result is an out-of-bounds read
+static POOL: [u8; POOL_LEN] = { let mut p = [0u8; POOL_LEN]; let mut i = 0; while i < POOL_LEN { let b = ((i * 31 + 7) & 0xff) as u8; p[i] = if b == 0xEE { 0x11 } else { b }; i += 1; } p };
 fn pool(off: usize, len: usize) -> &'static [u8] { &POOL[off..off + len] }
 
 #[derive(Default)]
 struct Log { r: Vec<Option<usize>>, c: Vec<Option<(usize, usize)>>, a: Vec<(usize, bool)>, v: Vec<Option<(usize, Vec<(usize, usize)>)>> }
-struct State { segs: Vec<(usize, usize)>, seg: usize, pos: usize, rng: Rng, fault_pct: u64, log: Log, calls: usize }
+struct State { segs: Vec<(usize, usize)>, seg: usize, pos: usize, rng: Rng, fault_pct: u64, log: Log, calls: usize, top: usize }
+const ARENA: usize = 1 << 18;
+static mut ARENA_BUF: [u8; ARENA] = [0xEE; ARENA];
+#[allow(static_mut_refs)]
+fn arena() -> &'static mut [u8; ARENA] { unsafe { &mut *std::ptr::addr_of_mut!(ARENA_BUF) } }
 struct Liar(Rc<RefCell<State>>);
 fn big(rng: &mut Rng) -> usize { if rng.chance(1, 2) { usize::MAX - rng.below(3) as usize } else { (isize::MAX as usize) + 1 + rng.below(3) as usize } }
 impl State {
@@ -27,6 +32,12 @@ impl State {
     fn skip_empty(&mut self) { while self.seg < self.segs.len() && self.pos >= self.segs[self.seg].1 { self.seg += 1; self.pos = 0; } }
     fn honest_chunk(&mut self) -> (usize, usize) { self.skip_empty(); if self.seg < self.segs.len() { let s = self.segs[self.seg]; (s.0 + self.pos, s.1 - self.pos) } else { (0, 0) } }
     fn honest_advance(&mut self, mut cnt: usize) { while cnt > 0 { self.skip_empty(); if self.seg >= self.segs.len() { return; } let left = self.segs[self.seg].1 - self.pos; let k = left.min(cnt); self.pos += k; cnt -= k; } }
+    /// a private copy of pool[off..off+len] with 64 bytes of 0xEE on both sides (the arena never reallocates; it outlives every use of the slice)
+    fn serve(&mut self, off: usize, len: usize) -> &'static [u8] {
+        let a = arena(); let start = self.top + 64; if start + len + 64 > a.len() { return pool(off, len); }
+        a[start..start + len].copy_from_slice(pool(off, len)); self.top = start + len;
+        unsafe { std::slice::from_raw_parts(a.as_ptr().add(start), len) }
+    }
     fn fault(&mut self) -> bool { let p = self.fault_pct; self.rng.chance(p, 100) }
     /// a liar can also keep a consumer looping forever (allowed: not a memory-safety matter); the harness ends that by a panic after 300 calls
     fn tired(&mut self) -> bool { self.calls += 1; self.calls > 300 }
@@ -42,7 +53,7 @@ impl Buf for Liar {
         let mut s = self.0.borrow_mut(); let (off, len) = s.honest_chunk();
         let ans = if s.tired() { None } else if s.fault() { match s.rng.below(6) { 0 => None, 1 => Some((off, 0)), 2 => Some((off, len / 2)), 3 => Some((off, (len + 1 + s.rng.below(300) as usize).min(POOL_LEN - off))), 4 => { let o = s.rng.below(4000) as usize; Some((o, s.rng.below(600) as usize)) } _ => Some((off, len.min(1))) } } else { Some((off, len)) };
         untracked(|| s.log.c.push(ans));
-        match ans { Some((o, l)) => pool(o, l), None => { drop(s); panic!("liar: chunk") } }
+        match ans { Some((o, l)) => s.serve(o, l), None => { drop(s); panic!("liar: chunk") } }
     }
     fn advance(&mut self, cnt: usize) {
         let mut s = self.0.borrow_mut();
@@ -62,7 +73,7 @@ impl Buf for Liar {
         let ans = if panic_ { None } else { Some((claim, untracked(|| hs[..nw].to_vec()))) };
         untracked(|| s.log.v.push(ans.clone()));
         if panic_ { drop(s); panic!("liar: chunks_vectored") }
-        for i in 0..nw { dst[i] = IoSlice::new(pool(hs[i].0, hs[i].1)); }
+        for i in 0..nw { dst[i] = IoSlice::new(s.serve(hs[i].0, hs[i].1)); }
         claim
     }
 }
@@ -148,7 +159,7 @@ pub fn adv(out: &mut dyn Write, seed: u64, n: usize) {
         let mut segs = vec![]; let mut off = rng.below(500) as usize;
         for _ in 0..nseg { let l = match rng.below(6) { 0 => 0, 1 => 1, _ => rng.below(48) as usize }; segs.push((off, l)); off += l + rng.below(9) as usize; }
         let fault_pct = *rng.pick(&[0u64, 5, 15, 30, 60]);
-        let st = Rc::new(RefCell::new(State { segs, seg: 0, pos: 0, rng: rng.fork(), fault_pct, log: Log::default(), calls: 0 }));
+        let st = Rc::new(RefCell::new(State { segs, seg: 0, pos: 0, rng: rng.fork(), fault_pct, log: Log::default(), calls: 0, top: 0 }));
         let (arg, arg2) = match op { "tcs" | "cts" | "ctb" | "rd" | "it" => (match rng.below(5) { 0 => 0, 1 => rng.below(200) as usize, _ => rng.below(40) as usize }, 0), "pbm" | "pv" => (rng.below(64) as usize, rng.below(8) as usize), "ps" => (rng.below(96) as usize, 0), "tv" => (0, *rng.pick(&[0usize, 1, 2, 3, 8, 16, 17, 20])), _ => (0, 0) };
         let mut ts = String::new(); spec(&tree, &mut ts);
         crate::progress(&format!("adv case {} op={} tree={}", case, op, ts));
@@ -158,7 +169,9 @@ pub fn adv(out: &mut dyn Write, seed: u64, n: usize) {
         let (outc, data) = match r { Ok(x) => x, Err(e) => { drop(e); ("panic".to_string(), "-".to_string()) } };
         let mut detail = String::new(); let mut viol = sweep(&mut detail);
         if guard_bad.get() { viol += 1; detail.push_str("guard-bytes;") }
+        if data.split('|').any(|p| p != "-" && p.as_bytes().chunks(2).any(|c| c == b"ee")) { viol += 1; detail.push_str("out-of-bounds-read(0xEE);") }
         let s = st.borrow();
+        { let a = arena(); let used = (s.top + 128).min(a.len()); for b in a[..used].iter_mut() { *b = 0xEE; } }
         writeln!(out, "Z op={}:{}:{} tree={} {} out={} data={} ctr={},{},{},{} viol={} detail={}", op, arg, arg2, ts, fmt_log(&s.log), outc, data, s.log.r.len(), s.log.c.len(), s.log.a.len(), s.log.v.len(), viol, if detail.is_empty() { "-" } else { &detail }).unwrap();
     }
     ledger::reset(false);
